@@ -195,10 +195,18 @@ def _r2(ctx, f):
         loop = C.root_loop(c)
         root = U(loop.target) if isinstance(loop, ast.For) else "?"
         params = fi.params()
-        text = "%s(%s)" % (U(c.func), ", ".join(U(a) for a in c.args[:3]))   # graph, source, target; the depth bound is judged below
+        from . import c05
+        gname, s_txt, t_txt, restr = c05.searched_graph(fi, c)
+        if restr == "?":
+            return None
+        # graph, source, target (locals resolved; a restriction to the nodes on source->target paths loses nothing)
+        text = "%s(%s, %s, %s)" % (U(c.func), gname, s_txt, t_txt)
         text = text.replace(root + ".", "ROOT.")
         return text
     a, b = norm(f, seq[0]), norm(ext, wrk[0])
+    if a is None or b is None:
+        ctx.unknown("R2", "path query agreement", ext.where(wrk[0]), "a search runs on a sub-graph the rule cannot show to contain every path")
+        a = b = ""
     # map the worker's parameter names onto the caller's argument names
     procs = [c for c in ast.walk(f.node) if isinstance(c, ast.Call) and pm.call_name(c).endswith("Process")]
     args = [k.value for k in procs[0].keywords if k.arg == "args"][0]
